@@ -70,10 +70,11 @@ Proof. exact C09_Gc.crashed_objects_delete_nothing. Qed.
 Print Assumptions crashed_objects_delete_nothing.
 
 (* dropped_wals_removed: once the retention update HAS BEEN SAVED (its Save returned without error), the WAL file of every
-   checkpoint it dropped is gone (a checkpoint is dropped when its id is neither listed nor newer than every listed id) ... *)
+   checkpoint it dropped is gone (a checkpoint is dropped when its id is neither listed nor newer than every listed id); EVERY WAL handle of a checkpoint
+   restored from several instances is removed, also when a sibling has already removed one of them ... *)
 Theorem dropped_wals_removed : forall w d ids f x c,
   get_db w d = Some x -> retain_empty w d ids = false -> retain_ok w d ids f = true -> In c (x_ckpts x) -> retain_keeps ids c = false ->
-  fs_has (g_fs (step_retain w d ids f)) (c_wal c) = false.
+  forall n, In n (c_allw c) -> fs_has (g_fs (step_retain w d ids f)) n = false.
 Proof. exact retain_saved_removes_dropped_wals. Qed.
 Print Assumptions dropped_wals_removed.
 
@@ -133,8 +134,8 @@ Example monitored_history_exists :
 Proof.
   cbn [run_ok]. repeat match goal with |- _ /\ _ => split end; try exact I.
   - intros x H. vm_compute in H. inversion H; subst. split; [reflexivity|]. cbn. intros [].
-  - intros x H. vm_compute in H. inversion H; subst. split; [reflexivity|]. intros c [].
-  - intros x H. vm_compute in H. inversion H; subst. split; [reflexivity|]. intros c [].
+  - intros x H. vm_compute in H. inversion H; subst. split; [reflexivity|]. intros c n [].
+  - intros x H. vm_compute in H. inversion H; subst. split; [reflexivity|]. intros c n [].
   - intros x H. vm_compute in H. inversion H; subst. split; [reflexivity|]. intro E. vm_compute in E. discriminate.
   - intros i x n Hx NC Hn. exfalso.
     destruct i as [|i]; [|destruct i; vm_compute in Hx; discriminate]. vm_compute in Hx. inversion Hx; subst. vm_compute in Hn. exact Hn.
